@@ -446,7 +446,18 @@ func c13EndToEnd(r *ev.Run) {
 						var err error
 						if cmd[0] == 'h' {
 							field = string(orig[ai-1])
-							switch crnd.Intn(4) {
+							switch crnd.Intn(5) {
+							case 4:
+								// a reply that nests arrays: [cursor, [field, value, ...]]
+								var a resp.Value
+								a, err = conn.DoS(30*time.Second, "HSCAN", key, "0")
+								if err == nil && a.Kind == resp.Array && len(a.Arr) == 2 && a.Arr[1].Kind == resp.Array {
+									for x := 0; x+1 < len(a.Arr[1].Arr); x += 2 {
+										if string(a.Arr[1].Arr[x].Str) == field {
+											got = a.Arr[1].Arr[x+1]
+										}
+									}
+								}
 							case 0:
 								got, err = conn.DoS(30*time.Second, "HGET", key, field)
 							case 1:
